@@ -8,7 +8,8 @@ from .strategies import _pick, _weighted, Ctx, texpr, paramtype, rettype
 
 
 def _ctx_for(m):
-    kinds = [t["kind"] for t in m["types"]]
+    # TU-private types may only be used inside their own translation unit: hide them from newly drawn type expressions
+    kinds = ["private" if t.get("where", "pub").startswith("tu") else t["kind"] for t in m["types"]]
     names = [t["name"] for t in m["types"]]
     cx = Ctx(kinds, names, m["lang"] == "cxx")
     cx.defined = len(kinds)
@@ -302,7 +303,10 @@ def neutral(draw, m, k=None):
         elif kind == "reverse_defs":
             m2["reverse_defs"] = not m2.get("reverse_defs", False)
         elif kind == "move_tu":
-            ifs = m2["funcs"] + m2["vars"]
+            priv = set(t["name"] for t in m2["types"] if t.get("where", "pub").startswith("tu"))
+            ifs = [i for i in m2["funcs"] + m2["vars"] if not (M.iface_reach(m2, i) & priv)]
+            if not ifs:
+                continue
             i = _pick(draw, ifs)
             i["tu"] = (i["tu"] + 1) % (M.ntus(m2) + draw(st.integers(0, 1)))
         elif kind == "blank_lines":
